@@ -135,7 +135,7 @@ def run(ctx):
     if not model:
         ctx.tie(False)
         return
-    CH = 60
+    CH = 20
     jobs, offs = [], []
     for off in range(0, len(cases), CH):
         lit = "[" + ";\n ".join(coq_case(c) for c in cases[off:off + CH]) + "]"
